@@ -11,12 +11,21 @@ BRIDGE_MODULES = ["HvsrVerif.Bridge.C01", "HvsrVerif.Bridge.PyCombine", "HvsrVer
 def gen_case(rng, i):
     fam = ["trad", "trad", "trad", "saz", "rot", "trad", "diff", "trad", "saz", "rot", "az", "diff"][i % 12]
     default_n = (i % 9 == 8) or fam == "az"       # the azimuthal path always ends at n >= 2**15 (prepare_fft_settings runs twice)
-    nrec = int(rng.integers(1, 4)) if not default_n else int(rng.integers(1, 3))
+    nrec = int(rng.integers(1, 7)) if not default_n else int(rng.integers(1, 3))      # 4+ windows: arrangements of two time steps whose grouping is not an involution ([a,b,b,a])
     dt = float(rng.choice(pg.DTS))
     nmax = 40 if default_n else 200
     dts = [dt] * nrec
     if nrec >= 2 and fam in ("trad", "saz", "rot", "az") and rng.random() < 0.35:    # windows with different time steps in one call
-        dts = [float(rng.choice(pg.DTS)) for _ in range(nrec)]
+        pool = [float(x) for x in rng.choice(pg.DTS, 2 if rng.random() < 0.6 else 3, replace=False)]
+        dts = [pool[int(rng.integers(0, len(pool)))] for _ in range(nrec)]
+    force_resampling = False
+    if not default_n and fam in ("trad", "saz", "rot") and i % 5 == 2:
+        # an arrangement of two time steps whose grouping permutation is NOT its own inverse (the curves of such a list come back in the order given only
+        # if the rows are put back with the inverse of the grouping), under the policy that keeps every window
+        a_, b_ = [float(x) for x in rng.choice(pg.DTS, 2, replace=False)]
+        dts = [[a_, b_, b_, a_], [a_, b_, a_, a_], [b_, a_, a_, b_, a_], [a_, b_, b_, a_, b_, a_]][int(rng.integers(0, 4))]
+        nrec = len(dts)
+        force_resampling = True
     recs = [pg.gen_record(rng, n=int(rng.integers(16, nmax)), dt=d, deg=float(rng.choice([0.0, 0.0, 30.0, 215.0]))) for d in dts]
     max_n = max(len(r["vt"]) for r in recs)
     fft = (None if rng.random() < 0.5 else dict(n=int(max_n + rng.integers(0, 40)))) if default_n else dict(n=None)
@@ -30,6 +39,8 @@ def gen_case(rng, i):
     if sm is None:
         return None
     policy = pg.POLICIES[int(rng.integers(0, 3))] if (len(set(dts)) > 1 and fam != "diff") else pg.POLICIES[0]
+    if force_resampling:
+        policy = "frequency_domain_resampling"
     case = dict(family=fam, smoothing=sm, width=float(rng.choice(pg.WIDTHS)), fft=fft, policy=policy, records=recs)
     if fam == "trad":
         case["method"] = pg.COMBINE_NAMES[int(rng.integers(0, len(pg.COMBINE_NAMES)))]
@@ -39,6 +50,10 @@ def gen_case(rng, i):
     elif fam == "rot":
         case["pct"] = float(rng.choice([0, 17.5, 50, 84, 100]))
         case["azimuths"] = [float(a) for a in np.arange(0, 180, int(rng.choice([45, 60]) if default_n else rng.choice([30, 45, 60])))]
+        if not default_n and rng.random() < 0.3:
+            # the azimuth list is the user's: a full circle, or a direction listed twice (a weighted list) -- the percentile is taken over the list as given
+            case["azimuths"] = ([float(a) for a in np.arange(0, 360, int(rng.choice([45, 60, 90])))] if rng.random() < 0.5
+                                else case["azimuths"] + [case["azimuths"][int(rng.integers(0, len(case["azimuths"])))] + float(rng.choice([0.0, 180.0]))])
     elif fam == "az":
         case["azimuths"] = [float(a) for a in sorted(rng.choice(np.arange(0, 180, 15), int(rng.integers(1, 3)), replace=False))]
     return case
